@@ -13,7 +13,7 @@ Tie:    (i) rational test points (Pythagorean quadruples, tangent half-angle): t
         dihedral-at-target) evaluated EXACTLY in Lean on the floats the real code returned (floats are dyadic
         rationals), incl. the degenerate neighbourhoods (v2 within 1e-3..1e-12 of −v1, v2 within 3e-2..1e-9 of +v1
         at tolerance 1e-11, exact (anti)parallel,
-        angle 0 / π, axis-aligned vectors).
+        angle 0 / π, axis-aligned vectors, rotation axes of length 1 ± 1e-3…1e-9 / rounded unit vectors / float32-normalised at 1e-12).
 Oracle: model-free numpy: distance matrices, signed volumes, dihedral() before/after, bit-identity of unmoved
         rows, centroids, recomputed RMSD, pose independence.
 """
@@ -32,7 +32,9 @@ from harness.geomlib import fbits, ftoks, qtoks, frtok, TOL, TOL_DEG
 ELEMENTS = ["C", "N", "O", "H", "F", "S", "Cl", "P"]
 
 
+NEAR_ONE = [1e-3, 1e-4, 1e-5, 3e-6, 1e-6, 1e-7, 1e-8, 1e-9]
 NEAR_PAR_DELTAS = [3e-2, 1e-2, 1e-3, 3e-4, 1e-4, 3e-5, 1e-5, 1e-6, 1e-7, 1e-8, 1e-9]
+TOL_AXIS = 1e-12    # rotation_matrix_from_axis always normalises: orth/det/axis/angle hold to a few 1e-16 on the unchanged code
 TOL_PAR = 1e-11     # near-parallel inputs are perfectly conditioned (1 + c ≈ 2): the unchanged code is exact to ~1e-16
 
 
@@ -292,13 +294,13 @@ def sec_rotaxis(ctx, B, n):
     for i in range(n):
         u = G.rational_unit(rng)
         s, c = G.half_angle(rng)
-        k = scales(rng)
+        k = scales(rng) if rng.chance(1, 2) else 1.0 + rng.choice([1, -1]) * rng.choice(NEAR_ONE)   # also axes of length ALMOST 1
         axis = np.array([float(x) for x in u]) * k
         angle = math.atan2(float(s), float(c))
         tag = {"op": "rotation_matrix_from_axis", "u": qtoks(u), "k": k, "s": frtok(s), "c": frtok(c)}
         R = rma(axis, angle)
-        axis_oracle(ctx, R, axis, angle, tag)
-        B.add(f"rotaxis {qtoks(u)} {frtok(s)} {frtok(c)}", expect_array(ctx, "rotation_matrix_from_axis differs from the model", tag, R, "m"))
+        axis_oracle(ctx, R, axis, angle, tag, TOL_AXIS)
+        B.add(f"rotaxis {qtoks(u)} {frtok(s)} {frtok(c)}", expect_array(ctx, "rotation_matrix_from_axis differs from the model", tag, R, "m", TOL_AXIS))
         ctx.case(["rotaxis", qtoks(u), frtok(s), frtok(c), k], nontrivial=(s != 0 or c != 1))
         ctx.count("rotaxis.rational")
         if s == 0:
@@ -314,11 +316,44 @@ def sec_rotaxis(ctx, B, n):
         angle = specials[j % len(specials)] if j < 3 * len(specials) else (rng.uniform() * 8 - 4)
         tag = {"op": "rotation_matrix_from_axis", "axis": axis.tolist(), "angle": angle}
         R = rma(axis, angle)
-        axis_oracle(ctx, R, axis, angle, tag)
-        B.add(f"specaxis {ftoks(R)} {ftoks(axis)} {fbits(np.linalg.norm(axis))} {fbits(math.sin(angle))} {fbits(math.cos(angle))} 1/1000000000",
+        axis_oracle(ctx, R, axis, angle, tag, TOL_AXIS)
+        B.add(f"specaxis {ftoks(R)} {ftoks(axis)} {fbits(np.linalg.norm(axis))} {fbits(math.sin(angle))} {fbits(math.cos(angle))} 1/1000000000000",
               expect_flags(ctx, "rotation_matrix_from_axis", tag, SPECAXIS_KINDS))
         ctx.case(["rotaxis-f", axis.tolist(), angle], nontrivial=True)
         ctx.count("rotaxis.float")
+    # axes whose length is ALMOST 1 (a caller's "unit" vector): 1 ± 1e-3…1e-9, unit vectors rounded to 4–7 decimals,
+    # float32-normalised vectors — the result must be a proper rotation about that axis to float64 accuracy
+    pts = np.array([[1.0, 2.0, -0.5], [-3.0, 0.25, 4.0], [0.5, -1.5, 2.5], [6.0, 6.0, -6.0]])
+    for j in range(n):
+        base = np.array([rng.uniform() * 2 - 1 for _ in range(3)]) if j % 3 else np.array([float(x) for x in G.rational_unit(rng)])
+        if np.linalg.norm(base) < 0.1:
+            continue
+        u = base / np.linalg.norm(base)
+        form = j % 3
+        if form == 0:
+            eps = rng.choice(NEAR_ONE)
+            axis = u * (1.0 + rng.choice([1, -1]) * eps)
+            what = f"length 1±{eps:g}"
+        elif form == 1:
+            nd = rng.range(4, 7)
+            axis = np.round(u, nd)
+            what = f"rounded to {nd} decimals"
+        else:
+            u32 = u.astype(np.float32)
+            axis = (u32 / np.linalg.norm(u32)).astype(np.float64)
+            what = "float32-normalised"
+        angle = [math.pi, -math.pi, math.pi / 2, 3.0, 1.0, -2.0, math.pi - 1e-6][j % 7] if rng.chance(2, 3) else rng.uniform() * 2 * math.pi - math.pi
+        tag = {"op": "rotation_matrix_from_axis", "axis": axis.tolist(), "axis_form": what, "axis_length": float(np.linalg.norm(axis)), "angle": angle}
+        R = rma(axis, angle)
+        ok = axis_oracle(ctx, R, axis, angle, tag, TOL_AXIS)
+        if ok and np.all(np.isfinite(R)):
+            moved = pts @ R
+            if np.abs(G.dist_matrix(moved) - G.dist_matrix(pts)).max() > 1e-11:
+                ctx.violation("C11:rotaxis-not-orthogonal", f"`coords @ R` changes distances by {np.abs(G.dist_matrix(moved) - G.dist_matrix(pts)).max():.3g} Å (axis {what})", tag)
+        B.add(f"specaxis {ftoks(R)} {ftoks(axis)} {fbits(np.linalg.norm(axis))} {fbits(math.sin(angle))} {fbits(math.cos(angle))} 1/1000000000000",
+              expect_flags(ctx, "rotation_matrix_from_axis (axis of length almost 1)", tag, SPECAXIS_KINDS))
+        ctx.case(["rotaxis-nearunit", axis.tolist(), angle], nontrivial=True)
+        ctx.count("rotaxis.near-unit-axis." + ("scaled" if form == 0 else "rounded" if form == 1 else "float32"))
 
 
 # ------------------------------------------------------------------------------------------
@@ -812,6 +847,12 @@ def sec_ensembles(ctx, B, nens):
         ctx.check_deadline()
         n = rng.range(5, 10)
         nc = rng.range(1, 4)
+        if ei % 3 == 0:
+            # as many conformers as atoms (and one more / one fewer): a per-conformer (n_conf, 3) array then has the shape of a
+            # per-atom one — every per-conformer operation must still treat it conformer by conformer
+            n = rng.range(4, 6)
+            nc = n + [0, 1, -1][(ei // 3) % 3]
+            ctx.count(f"ens.n_conformers-minus-n_atoms={nc - n}")
         edges = G.random_topology(rng, n, rng.chance(1, 2))
         els = [rng.choice(ELEMENTS) for _ in range(n)]
         confs = [G.build_molecule(ml, els, edges, G.random_coords(rng, n), name=f"e{ei}") for _ in range(nc)]
@@ -902,7 +943,7 @@ def run(ctx):
                 "direction checked to 1e-11; rational unit pairs within 2·atan(1/q), q = 1e2…1e7, of ±b against the model; molecules: random 3-D trees / single-ring graphs of 5–12 atoms on a 1/8 Å grid: "
                 "translate, transform, substructure edits on random subsets — also through handles created BEFORE the parent was edited "
                 "(atoms deleted below/above the selection, atom added, coordinate table re-assigned) —, dihedral and rotate_dihedral on EVERY rotatable acyclic "
-                "bond in both directions; ensembles of 1–4 conformers: translate (1-d, 2-d), rotate (matrix, stack), center_at_core, "
+                "bond in both directions; ensembles of 1–4 conformers and ensembles with as many conformers as atoms (±1): translate (1-d, 2-d), rotate (matrix, stack), center_at_core, "
                 "center_at_atom, align_to_ref_coords (Kabsch callback, 1–2 index lists, with/without vec) + Molecule.align_to_ref_coords; "
                 "alignment also on molecules holding 2–3 DISTINCT occurrences of the core (different places and poses, the others perturbed), the "
                 "reference taken from one site which is put at EVERY position of the candidate list (optionally plus a symmetry mapping), 1–3 conformers; "
